@@ -971,6 +971,7 @@ impl CompositionGraph {
     ///
     /// This method panics if the provided node id is invalid.
     pub fn unexport(&mut self, node: NodeId) -> Result<(), UnexportError> {
+        let index = node.0;
         let node = &mut self.graph[node.0];
         if let NodeKind::Definition = node.kind {
             return Err(UnexportError::MustExportDefinition);
@@ -978,8 +979,9 @@ impl CompositionGraph {
 
         if let Some(name) = node.export.take() {
             log::debug!("unmarked node for export as `{name}`");
-            let removed = self.exports.swap_remove(&name);
-            assert!(removed.is_some());
+            assert!(self.exports.contains_key(&name));
+            // A node may have been exported under several names
+            self.exports.retain(|_, n| *n != index);
         }
 
         Ok(())
@@ -1035,6 +1037,7 @@ impl CompositionGraph {
             "removing node {index} from the graph",
             index = node.0.index()
         );
+        let index = node.0;
         let node = self.graph.remove_node(node.0).expect("invalid node id");
 
         // Remove any import entry
@@ -1044,12 +1047,12 @@ impl CompositionGraph {
             assert!(removed.is_some());
         }
 
-        // Remove any export entry
+        // Remove any export entries (a node may have been exported under several names)
         if let Some(name) = &node.export {
             log::debug!("removing export of node as `{name}`");
-            let removed = self.exports.swap_remove(name);
-            assert!(removed.is_some());
+            assert!(self.exports.contains_key(name));
         }
+        self.exports.retain(|_, n| *n != index);
 
         if let NodeKind::Definition = node.kind {
             log::debug!(
